@@ -16,11 +16,11 @@ TECHNIQUE = "metamorphic: E(mu2<-mu1)E(mu1<-mu0) vs E(mu2<-mu0) from three fresh
 RULE = (
     "Generated scale triples (mu0, mu1, mu2) with the intermediate point on the direct flavour path: inside one patch, "
     "across one matching scale (intermediate point before or after the matching), including legs that run down in scale "
-    "inside a patch before a matching; LO/NLO (thorough: NNLO), iterate-exact with 30-60 iterations; grids of 15 and 25-30 "
+    "inside a patch before a matching; LO/NLO (thorough: NNLO), iterate-exact with 30-60 iterations (quick tier: 20); grids of 15 (quick: 10) and 25-30 "
     "points on [1e-2, 1], degree 3-4; smooth toy PDFs. Three solves per grid; the split result E2(E1 f) and the direct "
     "result E f must agree at every grid point within 1e-3 of the largest flavour at that x (plus 1e-3 of the largest "
     "value overall times 1e-3 as absolute floor) on the fine grid, and the discrepancy on the fine grid must be smaller "
-    "than on the 15-point grid (unless both are below 1e-6). Non-trivial = both legs change a_s by more than 5%; distinct "
+    "than on the coarse grid (unless both are below 1e-6). Non-trivial = both legs change a_s by more than 5%; distinct "
     "by (order, path shape, nf0, directions of the legs)."
 )
 ASSUMPTIONS = [
@@ -47,7 +47,7 @@ def strategy(tier):
     @st.composite
     def build(draw):
         quick = tier == "quick"
-        order = draw(st.sampled_from((1, 2) if quick else (1, 2, 2, 3)))
+        order = draw(st.sampled_from((1, 1, 2) if quick else (1, 2, 2, 3)))
         masses = [1.51, 4.92, 172.5]
         kind = draw(st.sampled_from(("inside", "cross-after", "cross-before", "down-then-match", "backward")))
         nf0 = draw(st.sampled_from((3, 4)))
@@ -93,7 +93,7 @@ def strategy(tier):
         alpha_low = draw(st.floats(0.22, 0.33))
         card = dict(
             order=[order, 0], ref=[float(mu_low), ru.natural_nf(mu_low, masses)], alphas=float(alpha_low), masses=masses,
-            ratios=[1.0, 1.0, 1.0], method="iterate-exact", iters=draw(st.integers(30, 60)) if order > 1 else 1,
+            ratios=[1.0, 1.0, 1.0], method="iterate-exact", iters=(20 if quick else draw(st.integers(30, 60))) if order > 1 else 1,
             deg=draw(st.sampled_from((3, 4))), inv=inv, cores=5 if quick else 2,
         )
         nq = draw(st.integers(2, 3))
@@ -105,7 +105,7 @@ def strategy(tier):
             }
         pdf["21"] = {"sea": [draw(st.floats(0.5, 3.0)), draw(st.floats(-0.2, 0.2)), draw(st.floats(4.0, 7.0)), draw(st.floats(0.0, 2.0))]}
         fine = draw(st.integers(25, 26 if quick else 30))
-        return {"kind": kind, "points": pts, "card": card, "pdf": pdf, "grids": [15, fine]}
+        return {"kind": kind, "points": pts, "card": card, "pdf": pdf, "grids": [10 if quick else 15, fine]}
 
     return build()
 
@@ -139,20 +139,28 @@ def check_case(case):
     try:
         d1, d2 = couplings_change(card, pts)
         res.nontrivial = bool(d1 > 0.05 and d2 > 0.05)
+        cards_, grids = [], []
         for npts in case["grids"]:
             xs = [float(x) for x in np.geomspace(1e-2, 1.0, npts)]
+            grids.append(xs)
+            for a_, b_ in ((pts[0], pts[1]), (pts[1], pts[2]), (pts[0], pts[2])):
+                c = copy.deepcopy(card)
+                c.update(init=a_, mugrid=[b_], xgrid=xs, cores=1)
+                cards_.append(c)
+        outs = ru.solve_many(cards_, case.get("workers", 5))
+        for g, xs in enumerate(grids):
+            E1, E2, Ed = (list(outs[3 * g + i].values())[0][0] for i in range(3))
             f0 = input_grid(case["pdf"], xs)
-            f1 = evolve(card, pts[0], pts[1], xs, f0)
-            f2 = evolve(card, pts[1], pts[2], xs, f1)
-            fd = evolve(card, pts[0], pts[2], xs, f0)
+            f2 = np.einsum("ajbk,bk->aj", E2, np.einsum("ajbk,bk->aj", E1, f0))
+            fd = np.einsum("ajbk,bk->aj", Ed, f0)
             scale = np.max(np.abs(fd), axis=0)  # largest flavour at each x
             floor = 1e-3 * float(np.max(scale))
             rel = np.max(np.abs(f2 - fd), axis=0) / (scale + floor)
-            disc.append((npts, float(np.max(rel[:-1])), int(np.argmax(rel[:-1]))))
-    except (NotImplementedError, ValueError) as e:
+            disc.append((len(xs), float(np.max(rel[:-1])), int(np.argmax(rel[:-1]))))
+    except (NotImplementedError, ValueError, ru.SolveRefused) as e:
         return CaseResult(discarded=f"refused:{type(e).__name__}")
-    except Exception as e:  # noqa: BLE001 - crashes are C04's verdict
-        return CaseResult(discarded=exc_bucket("crash(decided by C04)", e))
+    except ru.SolveCrashed as e:  # crashes are C04's verdict
+        return CaseResult(discarded="crash(decided by C04):" + str(e)[:80])
     (n_c, d_c, _), (n_f, d_f, j_f) = disc
     if not d_f <= 1e-3:
         res.fail(
